@@ -248,6 +248,39 @@ func (n *cnNet) buildTx(spec *cnTxSpec, rng *rand.Rand) ([]byte, error) {
 	return cbor.Marshal(st), nil
 }
 
+// forgeFrom builds a forgery from an authentic signed transaction: the signer's public key and SIGNATURE are kept, the signed
+// body is replaced by another well-formed transaction of the same signer (a transfer with the signer's current nonce, so that
+// only the signature check stands between it and execution).  With bitOnly the original body is kept and one bit of it flipped.
+func (n *cnNet) forgeFrom(raw []byte, nonce uint64, to string, bitOnly bool, rng *rand.Rand) ([]byte, *cnTxSpec, bool) {
+	var st transaction.SignedTransaction
+	if err := cbor.Unmarshal(raw, &st); err != nil {
+		return nil, nil, false
+	}
+	var who *cnAccount
+	for _, a := range append(n.accounts(), n.nodeAccounts()...) {
+		if a.signer.Public().Equal(st.Signature.PublicKey) {
+			aa := a
+			who = &aa
+		}
+	}
+	toAcct, ok := n.account(to)
+	if who == nil || !ok {
+		return nil, nil, false
+	}
+	sp := &cnTxSpec{Kind: "transfer", Signer: who.name, To: to, Amount: 1 + int64(rng.Intn(5)), Nonce: nonce, Gas: 2000, Validity: "forged-sigreuse"}
+	if bitOnly {
+		blob := append([]byte{}, st.Blob...)
+		blob[rng.Intn(len(blob))] ^= 1 << uint(rng.Intn(8))
+		st.Blob = blob
+		sp.Kind, sp.Validity = "altered", "forged-bitflip"
+	} else {
+		fee := transaction.Fee{Gas: transaction.Gas(sp.Gas)}
+		tx := staking.NewTransferTx(nonce, &fee, &staking.Transfer{To: toAcct.addr, Amount: qq(sp.Amount)})
+		st.Blob = cbor.Marshal(tx)
+	}
+	return cbor.Marshal(st), sp, true
+}
+
 func runtimeID(name string) common.Namespace {
 	return common.NewTestNamespaceFromSeed([]byte("verif-runtime-"+name), common.NamespaceTest)
 }
